@@ -88,6 +88,16 @@ MUTANTS = [
      '        T = np.zeros((3, 3), dtype=dtype)\n        E = self.E\n        G = self.G\n        x_gl = np.array([1, 0, 0], dtype=dtype)\n',
      '        T = self.T\n        E = self.E\n        G = self.G\n        x_gl = self.x_gl\n',
      "re-introduces F2"),
+    ("m21_contour_writer_caches_dynamic_pressure", "C03", "mphys/surface_contours.py",
+     '        q = 0.5 * inputs["rho"] * inputs["v"] ** 2\n',
+     '        if getattr(self, "_q", None) is None:\n            self._q = 0.5 * inputs["rho"] * inputs["v"] ** 2\n        q = self._q\n',
+     "solution files normalise delta-Cp with the dynamic pressure of the first evaluation (only visible in the files on "
+     "the simulated disk)"),
+    ("m22_contour_writer_keeps_file_open_on_error", "C03", "mphys/surface_contours.py",
+     '            file_handle = open(file_path, "w")\n',
+     '            if getattr(self, "_fh_failed", False):\n                return\n            self._fh_failed = True\n            file_handle = open(file_path, "w")\n            self._fh_failed = False\n',
+     "after one failed open (directory gone / read-only) the writer silently stops writing for the rest of the "
+     "Problem's life: needs a disk fault, then a later evaluation"),
 ]
 
 
